@@ -179,6 +179,12 @@ class PageWorld:
         paid = st.dirty_writebacks - self.prev_wb
         if len(gone) > paid:
             how = "replaced-by-clean-page" if any(g in pages for g in gone) else "evicted"
+            g0 = sorted(gone)[0]
+            if seg is not None and kind == "rd":
+                # which page of the read was it, and was it written while this read was already running?
+                how += "/requested-page" if g0 == seg["key"] else "/readahead-page"
+                racing = any(r["kind"] == "wr" and r["key"] == g0 and r["inv"] > seg["inv"] for r in self.hist.ops)
+                how += "-written-during-this-read" if racing else "-written-before-this-read"
             raise Violation(f"{P}/writeback-lost/PageCache/dirty-page-{how}-without-writeback-during-{kind}",
                             f"dirty page(s) {sorted(gone)} left the dirty state during {kind} while only {paid} disk "
                             f"write-back(s) were accounted (cached now: {list(pages)}, dirty now: {sorted(dirty_now)})")
